@@ -32,7 +32,10 @@ ASSUME = [
 
 
 def check(ctx):
-    return objlib.run(ctx, QUICK, THOROUGH, RULE, ASSUME)
+    # bodies of KeyObjectSet::requires_reissuance / ResourceClassObjects::requires_re_issuance regenerated from the
+    # source; C14Src: generated definitions = model functions
+    return objlib.run(ctx, QUICK, THOROUGH, RULE, ASSUME,
+                      translate=[("pure_fns:C14", "PureFns.lean")], extra_modules=["KrillModel.Props.C14Src"])
 
 
 def replay(ctx, data):
